@@ -69,7 +69,7 @@ fn dump_no_env(w: &World) -> Vec<String> {
     dump(w).into_iter().filter(|l| !l.starts_with("env ")).collect()
 }
 
-pub fn run<W: Write>(text: &str, out: &mut W) -> Result<(), String> {
+pub fn run<W: Write>(text: &str, stride: u64, out: &mut W) -> Result<(), String> {
     let mut ops: Vec<Op> = vec![];
     for (ln, line) in text.lines().enumerate() {
         if is_blank(line) {
@@ -87,7 +87,7 @@ pub fn run<W: Write>(text: &str, out: &mut W) -> Result<(), String> {
         apply_op(&mut world, op);
         let lines = dump(&world);
         let hub_ok = !lines.iter().any(|l| l == "hub.none");
-        if hub_ok {
+        if hub_ok && (k as u64) % stride.max(1) == 0 {
             let epoch: u64 = field(&lines, "hub.params", 0).and_then(|s| s.parse().ok()).unwrap_or(0);
             let unbonding: u64 = field(&lines, "hub.params", 2).and_then(|s| s.parse().ok()).unwrap_or(0);
             for tok in ["bsei", "stsei"] {
